@@ -386,10 +386,10 @@ pub fn run_case(sc: &Scenario, mode: &Mode) -> CaseOut {
                 if r3.disp != res.disp {
                     let diff: Vec<String> = res.disp.iter().filter(|(k, v)| r3.disp.get(*k) != Some(v)).map(|(k, v)| format!("{}: {:?} vs {:?}", k, v, r3.disp.get(k))).collect();
                     vs.push(Violation { prop: "C14", clause: format!("dispositions-differ/{}", what), detail: format!("{:?}", diff) });
-                } else if r3.new_history != res.new_history {
-                    let (a, b) = (res.new_history.as_ref().unwrap(), r3.new_history.as_ref().unwrap());
-                    let diff: Vec<String> = a.keys().chain(b.keys()).filter(|k| a.get(*k) != b.get(*k)).map(|k| format!("{}: {:?} vs {:?}", k, a.get(k), b.get(k))).collect();
-                    vs.push(Violation { prop: "C14", clause: format!("history-differs/{}", what), detail: format!("{:?}", diff) });
+                } else if let Err((why, d)) = history_equal(&w, res.new_history.as_ref().unwrap(), r3.new_history.as_ref().unwrap()) {
+                    // same keys, same input lists, records equal under the configured comparison (which of two
+                    // texts the comparison judges equal the engine stores is not promised by any statement)
+                    vs.push(Violation { prop: "C14", clause: format!("history-differs/{}", what), detail: format!("{}: {}", why, d) });
                 } else if w3.disk != w.disk {
                     vs.push(Violation { prop: "C14", clause: format!("outputs-differ/{}", what), detail: String::new() });
                 } else if r3.offered_cleanup != res.offered_cleanup {
@@ -466,8 +466,14 @@ pub fn run_case(sc: &Scenario, mode: &Mode) -> CaseOut {
                     } else if re.disp != res.disp {
                         let diff: Vec<String> = res.disp.iter().filter(|(k, v)| re.disp.get(*k) != Some(v)).map(|(k, v)| format!("{}: {:?} vs {:?}", k, v, re.disp.get(k))).collect();
                         vs.push(Violation { prop: "C14", clause: "dispositions-differ/enumerated-schedule".into(), detail: format!("schedule {:?}: {:?}", idx, diff) });
-                    } else if re.new_history != res.new_history {
-                        vs.push(Violation { prop: "C14", clause: "history-differs/enumerated-schedule".into(), detail: format!("schedule {:?}", idx) });
+                    } else if let (Some(ha), Some(hb)) = (res.new_history.as_ref(), re.new_history.as_ref()) {
+                        if let Err((why, d)) = history_equal(&w, ha, hb) {
+                            vs.push(Violation { prop: "C14", clause: "history-differs/enumerated-schedule".into(), detail: format!("schedule {:?}: {}: {}", idx, why, d) });
+                        } else if we.disk != w.disk {
+                            vs.push(Violation { prop: "C14", clause: "outputs-differ/enumerated-schedule".into(), detail: format!("schedule {:?}", idx) });
+                        } else if re.offered_cleanup != res.offered_cleanup {
+                            vs.push(Violation { prop: "C14", clause: "cleanup-offers-differ/enumerated-schedule".into(), detail: format!("schedule {:?}: {:?} vs {:?}", idx, res.offered_cleanup, re.offered_cleanup) });
+                        }
                     } else if we.disk != w.disk {
                         vs.push(Violation { prop: "C14", clause: "outputs-differ/enumerated-schedule".into(), detail: format!("schedule {:?}", idx) });
                     } else if re.offered_cleanup != res.offered_cleanup {
@@ -619,6 +625,12 @@ pub fn run_case(sc: &Scenario, mode: &Mode) -> CaseOut {
             if out.sample.is_none() {
                 out.sample = Some(sample_of(&w, i, &res, &step.edits));
             }
+        }
+        if mode.prop == "C15" && sc.cfg.stamps {
+            // C15's third clause: under records that differ textually but are judged unaltered the outcome
+            // must not depend on scheduling or declaration order - the C14 twins of the noisy chain
+            let more: Vec<Violation> = vs.iter().filter(|v| v.prop == "C14").map(|v| Violation { prop: "C15", clause: format!("outcome-depends-on-scheduling-under-noise/{}", v.clause), detail: v.detail.clone() }).collect();
+            vs.extend(more);
         }
         for v in vs {
             out.violations.push((i, v));
